@@ -64,7 +64,7 @@ Definition run08 (c : case08) : sx :=
       L [ L [sx_outcome same r; sx_outcome same r'];      (* Tree.filtered, Tree.copy(predicate=) *)
           sx_shapes f;                                    (* the source afterwards *)
           sx_shapes ip; sx_nat (length (ids ip));         (* Tree.filter *)
-          L [sx_log r (af_calls v mk f); sx_log r' (af_calls v mk f); sx_ids (ip_calls w f)];
+          (let lg := snd (add_filtered_tr v mk f 1) in L [sx_log r lg; sx_log r' lg; sx_ids (snd (filter_inplace_tr w f))]);   (* the logs of the traced scans *)
           (* without a predicate: Tree.copy(), Tree.filtered(None), Tree.filter(None) *)
           L [sx_outcome same (api_copy mk None f 1); sx_err (api_filtered mk None f 1); sx_err (api_filter None f)] ]
   | Some z =>
@@ -81,7 +81,7 @@ Definition run08 (c : case08) : sx :=
           L [ L [sx_outcome top r1; sx_outcome top r1'; sx_outcome same r0];   (* Node.filtered, Node.copy(predicate=), Node.copy(add_self=False, predicate=) *)
               sx_shapes f;
               sx_shapes ip; sx_nat (length (ids ip));         (* Node.filter *)
-              L [sx_log r1 (af_calls v mk g); sx_log r1' (af_calls v mk g); sx_log r0 (af_calls v mk g); sx_ids (ip_calls w g)];
+              (let lg := snd (add_filtered_tr v mk g 2) in L [sx_log r1 lg; sx_log r1' lg; sx_log r0 (snd (add_filtered_tr v mk g 1)); sx_ids (snd (filter_inplace_tr w g))]);
               (* Node.copy(), Node.copy(add_self=False), Node.filtered(None), Node.filter(None) *)
               L [sx_outcome top (api_copy mk None g 2); sx_outcome same (api_copy mk None g 1);
                  sx_err (api_filtered mk None g 2); sx_err (api_filter None g)] ]
